@@ -52,6 +52,18 @@ int main (int argc, char **argv) {
     alarm(0);
     unsetenv("CHIBI_VERIF_SCHED");
     sexp_verif_sched_reset();     /* closes the trace */
+#if SEXP_USE_GREEN_THREADS
+    /* threads a request leaves behind (blocked for ever by design, or lost by a broken scheduler) must not
+       leak into the next request: empty the scheduler's lists and reset the root thread's wait fields */
+    sexp_global(ctx, SEXP_G_THREADS_FRONT) = SEXP_NULL;
+    sexp_global(ctx, SEXP_G_THREADS_BACK) = SEXP_NULL;
+    sexp_global(ctx, SEXP_G_THREADS_PAUSED) = SEXP_NULL;
+    sexp_context_waitp(ctx) = 0;
+    sexp_context_timeoutp(ctx) = 0;
+    sexp_context_event(ctx) = SEXP_FALSE;
+    sexp_context_timeval(ctx).tv_sec = 0;
+    sexp_context_timeval(ctx).tv_usec = 0;
+#endif
     if (sexp_exceptionp(res)) {
       printf("EXC ");
       str = sexp_exception_message(res);
